@@ -211,9 +211,13 @@ func c19(args []string) error {
 	bigN := nrandom / 8
 	for n := 0; n < bigN; n++ {
 		g := []int{1, 1, 2, 8, 64}[rng.Intn(5)]
-		pdx, pdy := 1+rng.Intn((1<<20)/g), 1+rng.Intn((1<<20)/g)
+		lim := (1 << 21) / g // coordinates in [-2^20, 2^20]: differences up to 2^21
+		pdx, pdy := 1+rng.Intn(lim-1100), 1+rng.Intn(lim-1100)
+		if n%2 == 0 { // both extents within 3% of the maximum
+			pdx, pdy = lim-1100-rng.Intn(lim/32), lim-1100-rng.Intn(lim/32)
+		}
 		for gcd(pdx, pdy) != 1 {
-			pdy++
+			pdy--
 		}
 		if rng.Intn(2) == 0 {
 			pdy = -pdy
